@@ -189,3 +189,49 @@ class DeferredExecutor:
                     f.force()
 
         return _Ex
+
+
+def completion_stubs(schedule=None):
+    """`concurrent.futures.as_completed` / `wait` for the deferred futures above: the order in which jobs complete is the
+    scheduler's choice (any permutation), exactly like the order in which pending jobs are forced at a `result()`."""
+    def as_completed(fs, timeout=None):
+        fs = list(fs)
+        order = list(schedule(fs, "as_completed")) if schedule is not None else fs
+        for f in order:
+            f.force()
+            yield f
+
+    def wait(fs, timeout=None, return_when="ALL_COMPLETED"):
+        fs = list(fs)
+        order = list(schedule(fs, "wait")) if schedule is not None else fs
+        if return_when == "FIRST_COMPLETED" and order:
+            order[0].force()
+            return {order[0]} | {f for f in fs if f.done}, {f for f in fs if not f.done}
+        for f in order:
+            f.force()
+        return set(fs), set()
+    return dict(as_completed=as_completed, wait=wait)
+
+
+def install_completion_stubs(module, schedule=None):
+    """replaces, in `module`'s namespace and in concurrent.futures itself, the completion-order functions by the stubs;
+    returns an undo function"""
+    import concurrent.futures as cf
+    st = completion_stubs(schedule)
+    real = {k: getattr(cf, k) for k in st}
+    saved_mod = {}
+    for name, val in list(vars(module).items()):
+        for k, r in real.items():
+            if val is r:
+                saved_mod[name] = val
+                setattr(module, name, st[k])
+    for k in st:
+        setattr(cf, k, st[k])
+
+    def undo():
+        for k, r in real.items():
+            setattr(cf, k, r)
+        for name, val in saved_mod.items():
+            setattr(module, name, val)
+    return undo
+
